@@ -40,3 +40,12 @@ def decode_eps(x, pow_=1):
         if r is not None and r[0] != 0 and abs(r[0]) < 10 ** 8 and r[1] < 10 ** 8:
             out.append([k, r[0], r[1]])
     return out
+
+
+def iround(v):
+    """Nearest integer of a token-valued float; NaN / inf / huge become -999999 (a value no specification expects)."""
+    try:
+        v = float(v)
+    except (TypeError, ValueError):
+        return -999999
+    return int(round(v)) if v == v and abs(v) < 1e15 else -999999
